@@ -62,6 +62,21 @@ def gen_cases(rng, n):
         cases.append("BX d %s E666f6f3a317c63,l,E6261723a327c63,F,L,F" % q)
     for k in (0, 1, 2):
         cases.append("UA %d E666f6f3a317c63,E6261723a327c63" % k)
+    # SocketStats::update with every kind of error (ext API), written != len included
+    for k in range(20):
+        cases.append("SU k5/5,e%d/7,k3/9,e%d/0" % (k, k))
+    for _ in range(max(10, n // 10)):
+        ups = []
+        for _ in range(rng.choice([1, 3, 10, 30])):
+            ln = rng.choice([0, 1, 7, 512, 1432, 65507, rng.randrange(1 << 40)])
+            if rng.random() < 0.55:
+                ups.append("k%d/%d" % (rng.choice([ln, ln, 0, rng.randrange(ln + 1)]), ln))
+            else:
+                ups.append("e%d/%d" % (rng.randrange(20), ln))
+        cases.append("SU " + ",".join(ups))
+    # a non-blocking Unix socket whose listener does not read: WouldBlock once its queue is full
+    for spec in ("u 40 30", "u 120 700", "16 80 10", "64 160 20", "512 400 90"):
+        cases.append("XW " + spec)
     for _ in range(n):
         fam = rng.choice(["U", "X", "BU", "BX", "BU", "BX"])
         q = "q1" if rng.random() < 0.25 else "q0"
@@ -73,6 +88,32 @@ def gen_cases(rng, n):
             c = 512 if cap == "d" else int(cap)
             cases.append("%s %s %s %s" % (fam, cap, q, gen_ops(rng, nops, fam == "BX", True, c)))
     return cases
+
+
+def xw_as_model_case(case, obs):
+    t = case.split()
+    if t[0] != "XW":
+        return case
+    if t[1] != "u" or obs.startswith("HARNESS-PANIC"):
+        return "UA 0 -"          # placeholder (buffered: judged on the implementation's observation only)
+    res = dict(x.split(":", 1) for x in obs.split("|"))["R"].split(",")
+    n, ln = int(t[2]), int(t[3])
+    ops = []
+    for i, r in enumerate(res):
+        m = ("w%d.%s" % (i, "x" * max(0, ln - 3 - len(str(i))))).encode()
+        ops += ["l", "E" + hx(m), "L"] if r[0] == "e" else ["E" + hx(m)]
+    return "X n q0 " + ",".join(ops)
+
+
+def xw_views(case, iobs, mobs):
+    """comparable views of an XW case: results as k<n>/e, datagrams, statistics"""
+    if case.split()[1] != "u" or iobs.startswith("HARNESS-PANIC"):
+        return iobs, iobs
+    ip = dict(x.split(":", 1) for x in iobs.split("|"))
+    mp = dict(x.split(":", 1) for x in mobs.split("|"))
+    iv = "R:%s|D:%s|S:%s" % (",".join("e" if r[0] == "e" else r for r in ip["R"].split(",")), ip["D"], ip["S"])
+    mv = "R:%s|D:%s|S:%s" % (",".join(r for r in mp["R"].split(",") if r != "-"), mp["D"], mp["S"])
+    return iv + "|A:" + ip.get("A", ""), mv + "|A:" + ip.get("A", "")
 
 
 def judge(case, obs):
@@ -92,6 +133,46 @@ def judge(case, obs):
             # "never more on the wire than accepted" is demanded here; exact delivery is checked by the paced families
             if int(n) > int(w[1]) or int(b) > int(w[0]):
                 bad.append(("C13", "received %s datagrams / %s bytes, the sink reported only %s / %s accepted" % (n, b, w[1], w[0])))
+        return bad
+    if t[0] == "SU":
+        parts = dict(x.split(":", 1) for x in obs.split("|"))
+        ups = t[1].split(",")
+        want = [0, 0, 0, 0]
+        for u in ups:
+            r, ln = u.split("/")
+            if r[0] == "k":
+                want[0] += int(r[1:])
+                want[1] += 1
+            else:
+                want[2] += int(ln)
+                want[3] += 1
+        want = [x % (1 << 64) for x in want]
+        if [int(x) for x in parts["S"].split(".")] != want:
+            bad.append(("C14", "statistics %s after the updates %s, expected %s" % (parts["S"], t[1][:200], want)))
+        if parts["R"].split(",") != [u.split("/")[0] for u in ups]:
+            bad.append(("C14", "SocketStats::update did not hand its argument back unchanged: %s for %s" % (parts["R"][:200], t[1][:200])))
+        return bad
+    if t[0] == "XW":
+        parts = dict(x.split(":", 1) for x in obs.split("|"))
+        res = parts["R"].split(",")
+        dg = [bytes.fromhex(x) for x in parts["D"].split(";")] if parts["D"] else []
+        st = [int(x) for x in parts["S"].split(".")]
+        n, ln = int(t[2]), int(t[3])
+        ms = [("w%d.%s" % (i, "x" * max(0, ln - 3 - len(str(i))))).encode() for i in range(n)]
+        if t[1] == "u":
+            okm = [m for m, r in zip(ms, res) if r[0] == "k"]
+            erm = [m for m, r in zip(ms, res) if r[0] == "e"]
+            if dg != okm:
+                bad.append(("C13", "datagrams received differ from the metrics whose emit returned Ok (%d vs %d)" % (len(dg), len(okm))))
+            want = [sum(map(len, okm)), len(okm), sum(map(len, erm)), len(erm)]
+            if st != want:
+                bad.append(("C14", "statistics %s, expected %s: %d sends accepted, %d refused (WouldBlock on a full listener queue)" % (st, want, len(okm), len(erm))))
+        else:
+            att = int(parts["A"])
+            if st[1] != len(dg) or st[0] != sum(map(len, dg)):
+                bad.append(("C14", "statistics %s but %d datagrams / %d bytes reached the listener" % (st, len(dg), sum(map(len, dg)))))
+            if st[1] + st[3] != att:
+                bad.append(("C14", "packets_sent + packets_dropped = %d but %d sends were attempted" % (st[1] + st[3], att)))
         return bad
     if t[0] == "UA":
         if t[1] == "0":
@@ -189,7 +270,14 @@ def run_sock_check(prop, tier, seed):
     conc = ["ST 4 20000", "ST 8 %d" % (100000 if thorough else 20000), "UC 4 200", "UC 8 %d" % (1000 if thorough else 150)]
     try:
         impl = common.run_harness("sock", cases, shards=min(8, common.NCPU))
-        model = common.run_model("sock", cases)
+        # XW: which sends the OS refuses is not the model's to predict; the unbuffered ones are replayed in the model
+        # with the observed refusals as the fault script (listener down around every refused emit)
+        raw = list(impl)
+        mcases = [xw_as_model_case(c, o) for c, o in zip(cases, impl)]
+        model = common.run_model("sock", mcases)
+        for i, c in enumerate(cases):
+            if c.startswith("XW"):
+                impl[i], model[i] = xw_views(c, impl[i], model[i])
         cimpl = common.run_harness("sock", conc, shards=len(conc))
     except common.CheckFailure as e:
         rep.violation_noinput("correspondence run failed", {"error": str(e)})
@@ -203,7 +291,7 @@ def run_sock_check(prop, tier, seed):
                 impl[i] = o
         rep.cov["rerun_after_disagreement"] = len(dis_idx)
     failures = []
-    for c, o in list(zip(cases, impl)) + list(zip(conc, cimpl)):
+    for c, o in list(zip(cases, raw)) + list(zip(conc, cimpl)):
         for pid, msg in judge(c, o):
             if pid == prop:
                 failures.append((len(c), c, o, msg))
